@@ -309,7 +309,9 @@ func (g *tgen) stmt(d, lvl int) string {
 			}
 			return s
 		case 10:
-			return "mutex " + g.ident() + " " + g.block(d, lvl)
+			// names nobody has used before are the interesting ones: the first
+			// use of a name sets up shared state
+			return "mutex " + g.ident() + fmt.Sprint(g.r.Intn(400)) + " " + g.block(d, lvl)
 		case 11:
 			if len(g.imports) == 0 {
 				continue
